@@ -15,7 +15,9 @@ from __future__ import annotations
 
 import contextlib
 import io
-import itertools
+import logging
+
+from immutabledict import immutabledict
 
 from lib import gen
 from lib import straxlib as sl
@@ -120,9 +122,10 @@ class FakeDep:
         return self.kind
 
 
-def plugin_class(comps, wl, wr, kinds=("k0",), multi=None, deps=None):
-    """a REAL OverlapWindowPlugin subclass computing `comps` (one output each) on its input kinds"""
-    multi = len(comps) > 1 if multi is None else multi
+def plugin_class(comps, wl, wr, kinds=("k0",), deps=None):
+    """a REAL OverlapWindowPlugin subclass computing `comps` (one output each) on its input kinds;
+    strax: multi_output <=> more than one provided data type"""
+    multi = len(comps) > 1
     fns = [comp_fn(c) for c in comps]
     deps = deps or tuple(f"d{j}" for j in range(len(kinds)))
     args = ", ".join(kinds)
@@ -138,7 +141,7 @@ def plugin_class(comps, wl, wr, kinds=("k0",), multi=None, deps=None):
         body.update(provides=tuple(f"o{i}" for i in range(len(comps))),
                     data_kind={f"o{i}": f"ok{i}" for i in range(len(comps))},
                     dtype={f"o{i}": DT for i in range(len(comps))},
-                    save_when={f"o{i}": strax.SaveWhen.ALWAYS for i in range(len(comps))})
+                    save_when=immutabledict({f"o{i}": strax.SaveWhen.ALWAYS for i in range(len(comps))}))
     else:
         body.update(provides=("o0",), data_kind="ok0", dtype=DT)
     return type("OverlapHarness", (strax.OverlapWindowPlugin,), body)
@@ -173,8 +176,12 @@ def show_result(r):
 def quiet(f):
     """strax prints from sources / processors; keep the check's stdout for the report lines"""
     def g(*a, **k):
-        with contextlib.redirect_stdout(io.StringIO()):
-            return f(*a, **k)
+        logging.disable(logging.WARNING)
+        try:
+            with contextlib.redirect_stdout(io.StringIO()):
+                return f(*a, **k)
+        finally:
+            logging.disable(logging.NOTSET)
     return g
 
 
@@ -184,7 +191,7 @@ def impl_iter(case):
 
     def f():
         chunks = [real_chunk(c) for c in case["chunks"]]
-        p = standalone(plugin_class(comps, wl, wr, multi=case.get("multi")))
+        p = standalone(plugin_class(comps, wl, wr))
         outs = [show_result(r) for r in p.iter({"d0": iter(chunks)})]
         return " ".join(outs) if outs else "-"
     return quiet(sl.guarded)(f)
@@ -193,7 +200,7 @@ def impl_iter(case):
 def op_iter(case):
     comps, wl, wr = case["comps"], case["wl"], case["wr"]
     cs = " ".join(show_raw(c) for c in case["chunks"])
-    if len(comps) == 1 and not case.get("multi"):
+    if len(comps) == 1:
         return f"c09.run {comps[0]} {wl} {wr} {cs}".rstrip()
     return f"c09.multi {','.join(comps)} {wl} {wr} {cs}".rstrip()
 
@@ -224,12 +231,12 @@ def impl_ctx(case):
 
     def f():
         Source.CHUNKS = case["chunks"]
-        cls = plugin_class(comps, wl, wr, multi=case.get("multi"))
+        cls = plugin_class(comps, wl, wr)
         per_output = []
         for i in range(len(comps)):
             st = strax.Context(storage=[], register=[Source, cls], allow_lazy=bool(case.get("lazy", True)))
             per_output.append([show_chunk(c) for c in st.get_iter("0", f"o{i}", processor=proc, progress_bar=False)])
-        if len(comps) == 1 and not case.get("multi"):
+        if len(comps) == 1:
             return " ".join(per_output[0]) if per_output[0] else "-"
         if len({len(x) for x in per_output}) != 1:
             return "ragged " + " | ".join(" ".join(x) for x in per_output)
@@ -244,7 +251,7 @@ def impl_calls(case):
 
     def f():
         calls = [{k: real_chunk(c[k], data_type=f"d_{k}", kind=k) for k in kinds} for c in case["calls"]]
-        p = standalone(plugin_class(comps, wl, wr, kinds=tuple(kinds), multi=bool(case["multi"])), kinds=tuple(kinds))
+        p = standalone(plugin_class(comps, wl, wr, kinds=tuple(kinds)), kinds=tuple(kinds))
         outs = []
         as_dict = lambda r: r if isinstance(r, dict) else {"o0": r}  # noqa: E731
         for i, kw in enumerate(calls):
@@ -257,7 +264,7 @@ def impl_calls(case):
 
 def op_calls(case):
     calls = " ".join(";".join(f"{k}={show_raw(c[k])}" for k in case["kinds"]) for c in case["calls"])
-    return f"c09.calls {int(case['multi'])} {','.join(case['comps'])} {case['wl']} {case['wr']} {calls}".rstrip()
+    return f"c09.calls {int(len(case['comps']) > 1)} {','.join(case['comps'])} {case['wl']} {case['wr']} {calls}".rstrip()
 
 
 # -- the computations themselves
@@ -328,9 +335,11 @@ def parse_results(out, n_outputs, as_dict):
 def whole_run(case, rows_by_kind):
     """one `compute` of the same plugin class over the whole run"""
     kinds = case.get("kinds", ["k0"])
-    cls = plugin_class(case["comps"], case["wl"], case["wr"], kinds=tuple(kinds), multi=True)
+    cls = plugin_class(case["comps"], case["wl"], case["wr"], kinds=tuple(kinds))
     p = standalone(cls, kinds=tuple(kinds))
     res = p.compute(*[sl.mk_array(rows_by_kind[k]) for k in kinds])
+    if not isinstance(res, dict):
+        res = {"o0": res}
     return {k: sl.rows_of(v) for k, v in res.items()}
 
 
@@ -352,7 +361,7 @@ def oracle_run(case, out):
         return f"plugin failed on a law-abiding chunking of disjoint rows: {out}"
     if out.startswith("ragged"):
         return "the outputs of a multi-output plugin came in different numbers of chunks"
-    as_dict = "calls" in case or not (len(comps) == 1 and not case.get("multi"))
+    as_dict = "calls" in case or len(comps) > 1
     res = parse_results(out, len(comps), as_dict)
     whole = whole_run(case, rows_by_kind)
     names = [f"o{i}" for i in range(len(comps))]
@@ -553,14 +562,9 @@ def run(ctx):
         if rng.random() < 0.25:
             g = rng.randint(0, min(wl, wr))
             comps[:2] = [f"pair0:{g}", f"pair1:{g}"]
-        cases.append(dict(comps=comps, wl=wl, wr=wr, chunks=chunks, valid=True, multi=True))
-    # a multi-output plugin with a single output takes the dict path as well
-    for _ in range(ctx.pick(300, 3000)):
-        rows, chunks = run_case(rng)
-        wl, wr = rand_window(rng)
-        cases.append(dict(comps=[pick_comp(rng, wl, wr)], wl=wl, wr=wr, chunks=chunks, valid=True, multi=True))
+        cases.append(dict(comps=comps, wl=wl, wr=wr, chunks=chunks, valid=True))
     ctx.correspond("iter/multi", cases, impl_iter, op_iter, oracle_run, nontrivial=nontrivial,
-                   rule="as iter/single with 1..3 outputs of a multi_output plugin (per-row and group-forming computations mixed, 25% the interlocking pair0/pair1)",
+                   rule="as iter/single with 2..3 outputs of a multi_output plugin (per-row and group-forming computations mixed, 25% the interlocking pair0/pair1)",
                    branch=branch_of, in_hyp=lambda c, o: stream_ok(c["chunks"]))
 
     # 4. malformed streams and windows (outside the property: agreement only)
@@ -580,7 +584,7 @@ def run(ctx):
             chunks, why = malformed(rng, chunks)
         multi = rng.random() < 0.3
         comps = [pick_comp(rng, max(wl, 0), max(wr, 0)) for _ in range(2 if multi else 1)]
-        cases.append(dict(comps=comps, wl=wl, wr=wr, chunks=chunks, valid=False, why=why, multi=multi))
+        cases.append(dict(comps=comps, wl=wl, wr=wr, chunks=chunks, valid=False, why=why))
     ctx.correspond("iter/malformed", cases, impl_iter, op_iter, None, nontrivial=nontrivial,
                    rule="streams breaking one law (gap between chunks, overlapping chunks, overlapping / unsorted rows, row outside its chunk, swapped chunks, no chunk at all) and negative windows: model/implementation agreement on output or error kind",
                    branch=lambda c, o: c["why"] + ":" + (o if o.startswith("err") else "ok"))
@@ -607,7 +611,7 @@ def run(ctx):
         comps = ["cross", pick_comp(rng, wl, wr)] if multi else ["cross"]
         if not calls:
             continue
-        cases.append(dict(comps=comps, wl=wl, wr=wr, calls=calls, kinds=["k0", "k1"], multi=int(multi), valid=True))
+        cases.append(dict(comps=comps, wl=wl, wr=wr, calls=calls, kinds=["k0", "k1"], valid=True))
     ctx.correspond("calls/two-kinds", cases, impl_calls, op_calls, oracle_run,
                    nontrivial=lambda c, o: len(c["calls"]) >= 2 and sum(len(x["k0"][2]) + len(x["k1"][2]) for x in c["calls"]) >= 2,
                    rule="two input kinds with independent disjoint rows, aligned calls fed to do_compute one by one, then the final cached_results; computation = rows of kind 2 within the window of each row of kind 1 (+ a second output in the multi-output half)",
@@ -633,11 +637,26 @@ def run(ctx):
         dict(comps=["count"], wl=0, wr=0, chunks=[[0, 3, [[0, 3, 0]]], [3, 3, []], [3, 6, [[3, 6, 1]]]], valid=True),
         dict(comps=["gap:3"], wl=3, wr=3, chunks=[[3 * i, 3 * i + 3, [[3 * i, 3 * i + 1, i]]] for i in range(12)], valid=True),  # one group across all chunks
         dict(comps=["count"], wl=5, wr=0, chunks=[[5, 9, [[5, 7, 0]]], [9, 9, []], [9, 20, [[9, 10, 1], [15, 20, 2]]]], valid=True),  # run not starting at 0
-        dict(comps=["pair0:1", "pair1:1"], wl=1, wr=1, multi=True, valid=True,
+        dict(comps=["pair0:1", "pair1:1"], wl=1, wr=1, valid=True,
              chunks=[[0, 8, [[i, i + 1, i] for i in range(8)]], [8, 12, [[i, i + 1, i] for i in range(8, 12)]]]),
     ]
     ctx.correspond("iter/corpus", corpus, impl_iter, op_iter, oracle_run, nontrivial=nontrivial,
                    rule="fixed shapes: 30 one-row chunks under a window of 12; rows 20x the window; zero window with an empty chunk; one gap-group spanning 12 chunks; run starting at 5; interlocking pair outputs")
+    ten_trials(ctx)
+
+
+def ten_trials(ctx):
+    """open finding C09-ten-trials: two outputs of a multi-output plugin that interlock like bricks over a long
+    stretch of touching rows exhaust `max_trials = 10` in cache_beyond -> ValueError instead of a result"""
+    cases = []
+    for n in (20, 24, 40):
+        rows = [[i, i + 1, i] for i in range(n)]
+        cases.append(dict(comps=["pair0:0", "pair1:0"], wl=0, wr=0, valid=True, chunks=[[0, n, rows]]))
+        cases.append(dict(comps=["pair1:1", "pair0:1"], wl=1, wr=2, valid=True,
+                          chunks=[[a, a + 4, rows[a:a + 4]] for a in range(0, n, 4)]))
+    ctx.correspond("iter/ten-trials", cases, impl_iter, op_iter, oracle_run, nontrivial=lambda c, o: True,
+                   rule="interlocking pair0/pair1 outputs over 20 / 24 / 40 touching rows, one chunk and 4-row chunks: from 24 rows on the ten trials of cache_beyond do not suffice (known finding C09-ten-trials)",
+                   branch=lambda c, o: f"rows={sum(len(x[2]) for x in c['chunks'])}:" + (o if o.startswith("err") else "ok"))
 
 
 def search(ctx):
@@ -649,7 +668,7 @@ def search(ctx):
         wl, wr = rand_window(rng)
         multi = rng.random() < 0.4
         comps = [pick_comp(rng, wl, wr) for _ in range(2 if multi else 1)]
-        cases.append(dict(comps=comps, wl=wl, wr=wr, chunks=chunks, valid=True, multi=multi))
+        cases.append(dict(comps=comps, wl=wl, wr=wr, chunks=chunks, valid=True))
     ctx.check_oracle("search/iter", cases, impl_iter, oracle_run)
 
 
